@@ -96,7 +96,7 @@ func H_C18_Process() {
 	hasSigner := nondetBool()
 	if hasSigner {
 		f.Signer = func(ctx context.Context, b []byte) (string, error) {
-			c := &cSignCall{arg: string(b), sig: nondetString()}
+			c := &cSignCall{arg: string(b), sig: nondetText()}
 			if nondetBool() {
 				c.err = &cErr{"sign"}
 			}
@@ -106,7 +106,7 @@ func H_C18_Process() {
 	}
 	nTypes := symLen(0, verifParam("T"))
 	for i := 0; i < nTypes; i++ {
-		f.SignEventTypes = append(f.SignEventTypes, nondetString())
+		f.SignEventTypes = append(f.SignEventTypes, nondetText())
 	}
 	// predicate: absent / true / false / error; records the cloudevent it is shown
 	var seen *Event
@@ -129,7 +129,7 @@ func H_C18_Process() {
 		}
 	}
 	// the event
-	etype := eventlogger.EventType(nondetString())
+	etype := eventlogger.EventType(nondetText())
 	verifAssume(etype != "")
 	created := time.Unix(0, int64(nondetInt()))
 	e := &eventlogger.Event{Type: etype, CreatedAt: created, Formatted: map[string][]byte{}}
@@ -142,7 +142,7 @@ func H_C18_Process() {
 		e.Payload = &cNilData{}
 		wantData = nil
 	case 5:
-		pid = nondetString()
+		pid = nondetText()
 		hasID = true
 		e.Payload = &cIDNilData{id: pid}
 		wantData = nil
@@ -150,7 +150,7 @@ func H_C18_Process() {
 		e.Payload = data
 		wantData = data
 	case 1:
-		pid = nondetString()
+		pid = nondetText()
 		hasID = true
 		p := &cWithID{id: pid}
 		e.Payload = p
@@ -159,7 +159,7 @@ func H_C18_Process() {
 		e.Payload = &cWithData{d: data}
 		wantData = data
 	case 3:
-		pid = nondetString()
+		pid = nondetText()
 		hasID = true
 		e.Payload = &cWithBoth{id: pid, d: data}
 		wantData = data
@@ -278,9 +278,9 @@ func H_C18_two_events() {
 		f.Format = FormatText
 	}
 	mk := func() (*eventlogger.Event, Event) {
-		t := eventlogger.EventType(nondetString())
+		t := eventlogger.EventType(nondetText())
 		verifAssume(t != "")
-		id := nondetString()
+		id := nondetText()
 		verifAssume(id != "")
 		e := &eventlogger.Event{Type: t, CreatedAt: time.Unix(0, int64(nondetInt())), Formatted: map[string][]byte{}, Payload: &cWithID{id: id}}
 		ct := DataContentTypeCloudEvents
@@ -310,9 +310,9 @@ func H_C18_sign_listing() {
 	src := "src"
 	calls := 0
 	f := &FormatterFilter{Source: &url.URL{Path: src}, Signer: func(ctx context.Context, b []byte) (string, error) { calls++; return "sig", nil }}
-	listedType := nondetString()
+	listedType := nondetText()
 	f.SignEventTypes = []string{listedType}
-	t := eventlogger.EventType(nondetString())
+	t := eventlogger.EventType(nondetText())
 	verifAssume(t != "")
 	e := &eventlogger.Event{Type: t, Formatted: map[string][]byte{}, Payload: &cWithID{id: "id"}}
 	_, err := f.Process(context.Background(), e)
